@@ -96,8 +96,11 @@ func writeFile(static string, t reflect.Type, codec string, bs int, vals []sx, f
 		if err != nil {
 			return nil, err
 		}
+		// one variable for all records, as callers of Encode usually have: what has been encoded must not
+		// depend on what the variable holds afterwards
+		rv := reflect.New(t).Elem()
 		for i, v := range vals {
-			rv := reflect.New(t).Elem()
+			rv.Set(reflect.Zero(t))
 			setVal(rv, v)
 			if err := e.encode(rv); err != nil {
 				return nil, err
@@ -145,8 +148,9 @@ func writeFile(static string, t reflect.Type, codec string, bs int, vals []sx, f
 		}
 		return nil
 	}
+	cell := newCell(t) // reused for every record (see above)
 	for i, v := range vals {
-		cell := newCell(t)
+		cell.v.Set(reflect.Zero(t))
 		setVal(cell.v, v)
 		c.Write(wb, cell.ptr())
 		count++
@@ -357,6 +361,13 @@ func genE2E(c *ctx) {
 			}
 			c.emit(T("e2e", T("static", A("stEmpty")), A(codec), I(1<<14), vals, L()))
 		}
+		// a record that is one fixed-width value, different in every record
+		onef := T("struct", hs(""), hs(""), T("field", hs("F"), A("true"), hs("f"), hs(""), A("f64")))
+		fv := L()
+		for k := 0; k < 5; k++ {
+			fv.list = append(fv.list, T("struct", T("f64", U(uint64(0x3ff0000000000000+k*0x1000000000000)))))
+		}
+		c.emit(T("e2e", onef, A(codec), I(1<<14), fv, L(I(1))))
 		tiny := T("struct", hs(""), hs(""), T("field", hs("A"), A("true"), hs("a"), hs(""), tInt(64)))
 		vals := L()
 		for k := 0; k < c.scale(1500, 6000); k++ {
